@@ -219,6 +219,74 @@ def wrapper_trace_oracle(rng):
     return []
 
 
+def sam_scan_oracle(rng):
+    """C01 through SimpleARTMAP (the reset function the library itself supplies: 'the category is mapped to another
+    class'): each sample's winner on the A side is the first category, by (activation desc, index asc), that passes the
+    vigilance in force and is not mapped to a different class; the map gains exactly (winner -> class) and nothing else;
+    the A side's vigilance is back at the configured value after every sample.  Any of the eight modules; the Bayesian
+    test is the inverted one."""
+    import artlib
+    k, rows = B.gen_any_kernel_and_rows(rng)
+    if rng.random() < 0.4 and k["kind"] == "K:Bayes":
+        k["p"]["rho"] = k["rho"] = rng.choice([1.0, 10.0, 1e3])     # the inverted test passes for M <= rho
+    mode = rng.choice(B.MODES)
+    eps = rng.choice([0.0, 1e-10, 1e-3, 0.05])
+    X = np.array(rows, dtype=float)
+    ncls = rng.choice([1, 2, 2, 3])
+    y = np.array([rng.randrange(ncls) for _ in rows], dtype=int)
+    a = B.make_est(k)
+    inverted = type(a).__name__ == "BayesianART"
+    est = artlib.SimpleARTMAP(a)
+    rep = {"estimator": "SimpleARTMAP(" + k["kind"][2:] + ")", "params": {kk: (np.asarray(vv).tolist() if isinstance(vv, np.ndarray) else vv) for kk, vv in k["p"].items()},
+           "mode": mode, "eps": eps, "X": X.tolist(), "y": y.tolist(),
+           "how": "partial_fit one labelled sample at a time; compare with the scan of the A side's own activation / match values"}
+
+    def bad(i, what):
+        r = dict(rep); r["failing_sample"] = i
+        return [{"signature": "SimpleARTMAP.step_fit/" + what.split(":")[0], "text": f"sample {i}: {what}", "replay": r}]
+    for i in range(len(X)):
+        x = None
+        has_w = hasattr(a, "W") and len(a.W) > 0
+        mp = dict(est.map) if hasattr(est, "map") else {}
+        pb = repr(sorted(a.params.items(), key=lambda kv: kv[0]))
+        exp_c = None
+        nW = len(a.W) if has_w else 0
+        if has_w:
+            try:
+                x = X[i]
+                T, M = [], []
+                for c, w in enumerate(a.W):
+                    ok = not (c in mp and mp[c] != int(y[i]))
+                    if mode == "MT~" and not ok:
+                        T.append(float("nan")); M.append(float("nan")); continue
+                    t, cache = a.category_choice(x, w, params=a.params)
+                    mval, _ = a.match_criterion(x, w, params=a.params, cache=cache)
+                    T.append(float(t)); M.append(float(mval))
+            except Exception:
+                return []
+            vfun = (lambda c: True) if mode == "MT~" else (lambda c: not (c in mp and mp[c] != int(y[i])))
+            exp_c, _ = expected_scan(T, M, float(a.params["rho"]), mode, eps, vfun, inverted)
+        try:
+            with np.errstate(all="ignore"):
+                est.partial_fit(X[i:i + 1], y[i:i + 1], match_tracking=mode, epsilon=eps)
+        except Exception:
+            return []        # totality is C04's business
+        c = int(a.labels_[-1])
+        want = exp_c if exp_c is not None else nW
+        if c != want:
+            return bad(i, f"winner: A-side category {c}, the specification scan gives {want}")
+        if len(a.W) != (nW if exp_c is not None else nW + 1):
+            return bad(i, "categories: the number of A-side categories does not match the outcome of the search")
+        mp2 = dict(mp); mp2[c] = int(y[i])
+        if {int(kk): int(vv) for kk, vv in est.map.items()} != mp2:
+            return bad(i, f"map: {dict(est.map)} after the step, expected {mp2}")
+        if c in mp and mp[c] != int(y[i]):
+            return bad(i, f"map: category {c} of class {mp[c]} absorbed a sample of class {int(y[i])}")
+        if repr(sorted(a.params.items(), key=lambda kv: kv[0])) != pb:
+            return bad(i, "vigilance: the A side's parameters differ from the configured ones after the sample")
+    return []
+
+
 def refit_oracle(rng):
     """the search of a fit call on a USED estimator (trained, then read: predict, W, n_clusters, cluster centres): its
     first sample founds category 0 and every sample is assigned as in the one-sample-at-a-time presentation on a
@@ -333,6 +401,12 @@ def main():
     for _ in range(n_wrap):
         fails.extend(wrapper_trace_oracle(rng_w))
 
+    # the search as SimpleARTMAP drives it (its own reset function)
+    rng_s = C.make_rng(seed, "C01-sam")
+    n_sam = 250 if tier == "quick" else 2500
+    for _ in range(n_sam):
+        fails.extend(sam_scan_oracle(rng_s))
+
     # fit on a used estimator (after training and reads)
     rng_r = C.make_rng(seed, "C01-refit")
     n_refit = 200 if tier == "quick" else 2000
@@ -355,7 +429,7 @@ def main():
         "rule": "random grid data (k/8, small row pools -> duplicates and exact ties), kernels Fuzzy/ART1/ART2A, rho k/8, 5 modes x eps in {0,2^-10,1/16,1/4}, "
                 "70% with a table reset function; fit or 2-3 partial_fit batches; non-trivial = distinct case reaching >= 2 categories",
         "traces_validated_against_impl": sum(1 for c in codes if c == 0),
-        "oracle_cases": n_or, "all_module_oracle_cases": n_any, "wrapper_trace_cases": n_wrap, "refit_after_reads_cases": n_refit,
+        "oracle_cases": n_or, "all_module_oracle_cases": n_any, "wrapper_trace_cases": n_wrap, "refit_after_reads_cases": n_refit, "simpleartmap_scan_cases": n_sam,
         "distribution": stats,
         "samples": [summaries[0], summaries[1]],
     })
